@@ -199,15 +199,9 @@ fn snap(p: &[nuts_rs::ChainProgress]) -> Vec<ProgressSnap> {
         .collect()
 }
 
-/// park the user thread until no other task can run
+/// park the user thread until no other task can run (timed waiters get their timeout first)
 fn sleep_until_quiescent() {
-    loop {
-        sched_facade::QUIESCENT_AT_LAST_YIELD.with(|c| c.set(false));
-        shuttle::thread::yield_now();
-        if sched_facade::QUIESCENT_AT_LAST_YIELD.with(|c| c.get()) {
-            break;
-        }
-    }
+    sched_facade::sleep_until_quiescent();
 }
 
 fn run_with<S: Settings>(scn: &Scenario, settings: S) {
